@@ -1,5 +1,4 @@
 import OpcuaModel.Model.ClientResp
-import OpcuaModel.Model.ClientRespRepairs
 import OpcuaModel.Gen.ClientSites
 /-
   C21 — client calls never panic on any well-formed server response.
@@ -8,228 +7,100 @@ import OpcuaModel.Gen.ClientSites
   the shape of the server's answers (Model/ClientResp.lean); `Gen.clientSites`
   is the list of index / slice / unchecked-assertion sites of the anchored
   files regenerated from the source; `auditedSites` classifies each of them.
+  (Round 2: the 13 defects found in round 1 are repaired in /repo; the model
+  mirrors the repaired code and the property is proved for all operations.)
 -/
 namespace Opcua.Props.C21
 open Opcua.ClientResp
 
 /-- TIE: the sites in the working tree are exactly the audited ones (same
-    functions, same expressions, same multiplicity).  A new index expression
-    or unchecked assertion in the anchored files breaks this theorem. -/
+    functions, same operands, same multiplicity).  A new index expression or
+    unchecked assertion in the anchored files breaks this theorem. -/
 theorem C21_sites : Gen.clientSites = auditedSites.map (·.1) := by
   decide +kernel
 
-/-- every site audited as `panics op` is backed by a shape on which the model
-    of `op` panics (no site is blamed without a witness) -/
-theorem C21_audit_witnessed : auditWitnessed = true := by
+/-- every audited site is guarded: none is marked as panicking -/
+theorem C21_audit_all_safe : auditAllSafe = true := by
   decide +kernel
 
-/-- … and every operation whose model can panic because of an index or an
-    assertion in the anchored files has an audited site -/
-theorem C21_panicking_ops_have_sites :
-    ∀ op ∈ [Op.subCancel, .subMonitor, .subModifyItems, .recreateItems, .transferOnReconnect, .references,
-            .browseName, .description, .displayName, .accessLevel, .userAccessLevel],
-      ∃ p ∈ auditedSites, p.2 = .panics op := by
-  decide +kernel
-
-/-- EXACT SPLIT: an operation panics on a shape iff the shape matches one of
-    the finding signatures (narrow decidable predicates) — for every operation
-    and every shape (unbounded array lengths and chains). -/
-theorem C21_panic_iff_sig (op : Op) (s : Shape) : outcome op s = .panic ↔ (sigOf op s).isSome = true := by
+/-- C21, FULL STRENGTH: for every client operation (all plain calls, Call, the
+    node getters, NamespaceArray, Stats, References/browseNext, Translate,
+    Subscribe, Cancel, Monitor, ModifyMonitoredItems, the reconnect loop's
+    recreate / transfer steps and the publish loop) and EVERY answer shape
+    (any kind, unbounded array lengths and chains, any Variant class) the
+    outcome is a value or an error, never a panic. -/
+theorem C21_nopanic (op : Op) (s : Shape) : outcome op s ≠ .panic := by
   cases op with
-  | plain p => simp only [outcome, sigOf]; split <;> simp
-  | call => simp only [outcome, sigOf]; split <;> (try split) <;> simp
-  | nodeAttribute => simp only [outcome, sigOf, getter]; split <;> simp
-  | subStats => simp only [outcome, sigOf, getter]; split <;> simp
-  | nodeClass =>
-    simp only [outcome, sigOf, getter, valFrom]
-    cases nodeAttr s with
-    | none => simp
-    | some v =>
-      rcases v with ⟨p, t, a, n⟩
-      cases p <;> cases a <;> cases t <;> simp [variantInt] <;> omega
-  | namespaceArray =>
-    simp only [outcome, sigOf, getter]
-    cases nodeAttr s with
-    | none => simp
-    | some v => rcases v with ⟨p, t, a, n⟩; cases a <;> cases t <;> simp
-  | browseName =>
-    simp only [outcome, sigOf, sigOf.typedSig, getter, valFrom]
-    cases nodeAttr s with
-    | none => simp
-    | some v => rcases v with ⟨p, t, a, n⟩; cases p <;> cases a <;> cases t <;> simp [assertScalar]
-  | description =>
-    simp only [outcome, sigOf, sigOf.typedSig, getter, valFrom]
-    cases nodeAttr s with
-    | none => simp
-    | some v => rcases v with ⟨p, t, a, n⟩; cases p <;> cases a <;> cases t <;> simp [assertScalar]
-  | displayName =>
-    simp only [outcome, sigOf, sigOf.typedSig, getter, valFrom]
-    cases nodeAttr s with
-    | none => simp
-    | some v => rcases v with ⟨p, t, a, n⟩; cases p <;> cases a <;> cases t <;> simp [assertScalar]
-  | accessLevel =>
-    simp only [outcome, sigOf, sigOf.typedSig, getter, valFrom]
-    cases nodeAttr s with
-    | none => simp
-    | some v => rcases v with ⟨p, t, a, n⟩; cases p <;> cases a <;> cases t <;> simp [assertScalar]
-  | userAccessLevel =>
-    simp only [outcome, sigOf, sigOf.typedSig, getter, valFrom]
-    cases nodeAttr s with
-    | none => simp
-    | some v => rcases v with ⟨p, t, a, n⟩; cases p <;> cases a <;> cases t <;> simp [assertScalar]
+  | plain p => simp only [outcome]; split <;> simp
+  | call => simp only [outcome]; split <;> (try split) <;> simp
+  | nodeAttribute => simp only [outcome, getter]; split <;> simp
+  | subStats => simp only [outcome, getter]; split <;> simp
+  | nodeClass => simp only [outcome, getter]; split <;> simp [variantInt]
+  | namespaceArray => simp only [outcome, getter]; split <;> (try split) <;> simp
+  | browseName => simp only [outcome, getter]; split <;> simp [assertScalar] <;> (repeat' split) <;> simp
+  | description => simp only [outcome, getter]; split <;> simp [assertScalar] <;> (repeat' split) <;> simp
+  | displayName => simp only [outcome, getter]; split <;> simp [assertScalar] <;> (repeat' split) <;> simp
+  | accessLevel => simp only [outcome, getter]; split <;> simp [assertScalar] <;> (repeat' split) <;> simp
+  | userAccessLevel => simp only [outcome, getter]; split <;> simp [assertScalar] <;> (repeat' split) <;> simp
   | references =>
-    simp only [outcome, sigOf, references]
-    cases hk : sendOk s.kind <;> simp
-    by_cases h0 : s.nRes = 0 <;> simp [h0]
-  | translate =>
-    simp only [outcome, sigOf, translate]
-    split <;> (try split) <;> (try split) <;> simp
-  | subscribe => simp only [outcome, sigOf, subscribe]; split <;> (try split) <;> simp
+    simp only [outcome, references]
+    split <;> (try simp)
+    split <;> (try simp)
+    exact browseLoop_ne_panic' s.chain
+  | translate => simp only [outcome, translate]; split <;> (try split) <;> (try split) <;> simp
+  | subscribe => simp only [outcome, subscribe]; split <;> (try split) <;> simp
   | subCancel =>
-    simp only [outcome, sigOf, subDelete, Shape.nRes]
-    cases hk : sendOk s.kind <;> simp
-    cases hr : s.results with
-    | nil => simp
-    | cons st rest => cases st <;> simp
-  | subMonitor =>
-    simp only [outcome, sigOf, subMonitor]
-    cases hk : sendOk s.kind <;> simp
-    by_cases h : s.nRes < s.nReq <;> simp [indexLoop_zero_eq, h]
-  | subModifyItems =>
-    simp only [outcome, sigOf, subModifyItems, modifyLoop_eq, Nat.sub_zero]
-    cases hi : s.idsKnown <;> simp
-    cases hk : sendOk s.kind <;> simp
-  | recreateItems =>
-    simp only [outcome, sigOf, recreateItems]
-    cases hk : sendOk s.kind <;> simp
-    by_cases hm : false ∈ s.results <;> by_cases h : s.nRes < s.nReq <;> simp [hm, h, indexLoop_zero_eq]
-  | transferOnReconnect =>
-    simp only [outcome, sigOf, transferOnReconnect]
-    cases hk : sendOk s.kind <;> simp
-    by_cases h : s.nReq < s.nRes <;> simp [indexLoop_zero_eq, h]
-  | publish => simp [outcome, sigOf, publish]
-
-/-- C21, PARTIAL: no operation panics on a shape that matches no finding signature -/
-theorem C21_nopanic_partial (op : Op) (s : Shape) (h : sigOf op s = none) : outcome op s ≠ .panic := by
-  intro hp
-  have := (C21_panic_iff_sig op s).1 hp
-  simp [h] at this
-
-/-- C21 at full strength for the operations without an unguarded site: every
-    plain request/response call, Call, Node.Attribute/Value, Subscription.Stats,
-    TranslateBrowsePathsToNodeIDs, Subscribe and the publish loop -/
-theorem C21_nopanic_checked_ops (op : Op) (s : Shape)
-    (h : (∃ p, op = .plain p) ∨ op = .call ∨ op = .nodeAttribute ∨ op = .subStats ∨ op = .translate ∨
-         op = .subscribe ∨ op = .publish) :
-    outcome op s ≠ .panic := by
-  apply C21_nopanic_partial
-  rcases h with ⟨p, rfl⟩ | rfl | rfl | rfl | rfl | rfl | rfl <;> rfl
-
-/-- the client is safe against conforming servers: a conforming answer
-    (see `conforming`) never panics, for every operation -/
-theorem C21_nopanic_conforming (op : Op) (s : Shape) (h : conforming op s) : outcome op s ≠ .panic := by
-  apply C21_nopanic_partial
-  rcases h with ⟨hk, hn, h1, hv, hs, ht, hc⟩
-  have hres : s.results ≠ [] := by
-    intro h0; simp [Shape.nRes, h0] at h1
-  have hattr : nodeAttr s = some s.val ∨ nodeAttr s = none := by
-    unfold nodeAttr
-    simp only [hk, sendOk]
-    cases hr : s.results with
-    | nil => exact absurd hr hres
-    | cons st rest => cases st <;> simp [decodedVal, hv]
-  cases op <;> simp only [sigOf, sigOf.typedSig, valFrom, hk, sendOk] <;> (try simp) <;> (try omega)
-  case nodeClass => rcases hattr with h | h <;> simp [h, hs]
-  case browseName => rcases hattr with h | h <;> simp [h, hs, ht .qname rfl]
-  case description => rcases hattr with h | h <;> simp [h, hs, ht .ltext rfl]
-  case displayName => rcases hattr with h | h <;> simp [h, hs, ht .ltext rfl]
-  case accessLevel => rcases hattr with h | h <;> simp [h, hs, ht .byte rfl]
-  case userAccessLevel => rcases hattr with h | h <;> simp [h, hs, ht .byte rfl]
-  case references =>
-    have := browseLoop_ne_panic s.chain hc
-    simp [this]; omega
-  case subModifyItems =>
-    have : List.drop s.nReq s.results = [] := by
-      apply List.drop_eq_nil_of_le; simp [Shape.nRes] at hn; omega
-    simp [this]
-
-/-- every signature `sigOf` can produce is in the list of recorded signatures -/
-theorem C21_sigs_listed (op : Op) (s : Shape) (sig : String) (h : sigOf op s = some sig) : sig ∈ allSigs := by
-  cases op <;> simp only [sigOf, sigOf.typedSig, valFrom] at h <;> (try cases h) <;>
-    (repeat' split at h) <;> (try cases h) <;> simp [allSigs] <;> (try simp_all)
-
-/-- once every recorded defect is repaired (error instead of panic), no
-    operation panics on any shape: the 13 signatures are all there is -/
-theorem C21_nopanic_when_repaired (R : List String) (hR : ∀ sig ∈ allSigs, sig ∈ R) (op : Op) (s : Shape) :
-    outcomeR R op s ≠ .panic := by
-  unfold outcomeR
-  cases h : sigOf op s with
-  | none => exact C21_nopanic_partial op s h
-  | some sig =>
-    have : R.contains sig = true := by simpa using hR sig (C21_sigs_listed op s sig h)
-    simp only [this, if_true]
+    simp only [outcome, subDelete]
+    split <;> (try simp)
     split <;> simp
+  | subMonitor =>
+    simp only [outcome, subMonitor]
+    split <;> (try simp)
+    by_cases h : s.nRes = s.nReq <;> simp [h, indexLoop_zero_eq]
+  | subModifyItems =>
+    simp only [outcome, subModifyItems, modifyLoop_eq, Nat.sub_zero]
+    split <;> (try simp)
+    split <;> (try simp)
+    by_cases h : s.nRes = s.nReq
+    · have : List.drop s.nReq s.results = [] := by
+        apply List.drop_eq_nil_of_le; simp [Shape.nRes] at h; omega
+      simp [h, this]
+    · simp [h]
+  | recreateItems =>
+    simp only [outcome, recreateItems]
+    split <;> (try simp)
+    by_cases h : s.nRes = s.nReq <;> simp [h, indexLoop_zero_eq]
+  | transferOnReconnect =>
+    simp only [outcome, transferOnReconnect]
+    split <;> (try simp)
+    by_cases h : s.nRes = s.nReq <;> simp [h, indexLoop_zero_eq]
+  | publish => simp only [outcome, publish]; split <;> (try simp); exact handleAcks_ne_panic _ _
 
-/-- the repairs recorded for the working tree are recorded signatures, and the
-    model with those repairs agrees with the unrepaired one elsewhere -/
-theorem C21_repairs_sound : (∀ r ∈ repairedSigs, r ∈ allSigs) ∧
-    ∀ op s, sigOf op s = none → outcomeR repairedSigs op s = outcome op s := by
-  refine ⟨by decide, ?_⟩
-  intro op s h; simp [outcomeR, h]
-
-/-- C21 as stated is false on the unchanged tree -/
-theorem C21_nopanic_fails : ¬ ∀ (op : Op) (s : Shape), outcome op s ≠ .panic := by
-  intro h; exact h .subCancel (witness .subCancel) (by decide)
-
-/-! ### one counterexample per recorded finding: the witness shape panics and carries exactly that signature -/
-
-theorem C21_finding_delete_empty_results :
-    outcome .subCancel (witness .subCancel) = .panic ∧
-    sigOf .subCancel (witness .subCancel) = some "C21.delete-empty-results" := by decide
-theorem C21_finding_monitor_fewer_results :
-    outcome .subMonitor (witness .subMonitor) = .panic ∧
-    sigOf .subMonitor (witness .subMonitor) = some "C21.monitor-fewer-results" := by decide
-theorem C21_finding_modify_more_results :
-    outcome .subModifyItems (witness .subModifyItems) = .panic ∧
-    sigOf .subModifyItems (witness .subModifyItems) = some "C21.modify-more-results" := by decide
-theorem C21_finding_recreate_fewer_results :
-    outcome .recreateItems (witness .recreateItems) = .panic ∧
-    sigOf .recreateItems (witness .recreateItems) = some "C21.recreate-fewer-results" := by decide
-theorem C21_finding_transfer_more_results :
-    outcome .transferOnReconnect (witness .transferOnReconnect) = .panic ∧
-    sigOf .transferOnReconnect (witness .transferOnReconnect) = some "C21.transfer-more-results" := by decide
-theorem C21_finding_browse_empty_results :
-    outcome .references (witness .references) = .panic ∧
-    sigOf .references (witness .references) = some "C21.browse-empty-results" := by decide
-theorem C21_finding_browsenext_empty_results :
-    outcome .references { Shape.good with chain := [(.ok, 0)] } = .panic ∧
-    sigOf .references { Shape.good with chain := [(.ok, 0)] } = some "C21.browsenext-empty-results" := by decide
-theorem C21_finding_type_assertions :
-    (∀ op ∈ [Op.browseName, .description, .displayName, .accessLevel, .userAccessLevel],
-      outcome op (witness op) = .panic) ∧
-    sigOf .browseName (witness .browseName) = some "C21.browsename-type-assertion" ∧
-    sigOf .description (witness .description) = some "C21.description-type-assertion" ∧
-    sigOf .displayName (witness .displayName) = some "C21.displayname-type-assertion" ∧
-    sigOf .accessLevel (witness .accessLevel) = some "C21.accesslevel-type-assertion" ∧
-    sigOf .userAccessLevel (witness .userAccessLevel) = some "C21.useraccesslevel-type-assertion" := by decide
-/-- a DataValue without a Variant decodes to the Null variant: the typed
-    getters panic on it as on any other unexpected type, NodeClass and
-    NamespaceArray do not -/
-theorem C21_absent_value_is_null :
-    (∀ op ∈ [Op.browseName, .description, .displayName, .accessLevel, .userAccessLevel],
-      outcome op { Shape.good with val := ⟨false, .int32, false, 0⟩ } = .panic) ∧
-    outcome .nodeClass { Shape.good with val := ⟨false, .int32, false, 0⟩ } = .value ∧
-    outcome .namespaceArray { Shape.good with val := ⟨false, .int32, false, 0⟩ } = .error := by
+/-- the shapes that made the unrepaired code panic now give an error (the
+    reconnect loop logs and drops it, NodeClass of an array is 0: `value`) -/
+theorem C21_old_witnesses_handled :
+    oldWitnesses.map (fun p => outcome p.1 p.2) =
+      [.error, .error, .error, .value, .value, .error, .error, .error, .error, .error, .error, .error, .value] := by
   decide
-theorem C21_finding_nodeclass_empty_int_array :
-    outcome .nodeClass (witness .nodeClass) = .panic ∧
-    sigOf .nodeClass (witness .nodeClass) = some "C21.nodeclass-empty-int-array" := by decide
 
-/-- non-vacuity: conforming shapes exist and give values -/
-example : conforming .subMonitor { Shape.good with nReq := 3, results := [true, false, true] } ∧
-    outcome .subMonitor { Shape.good with nReq := 3, results := [true, false, true] } = .value := by
-  refine ⟨⟨rfl, rfl, by decide, rfl, rfl, ?_, ?_⟩, by decide⟩
-  · intro t h; simp [wantTid] at h
-  · intro kn h; simp [Shape.good] at h
+/-- a malformed answer is never mistaken for a good one: fewer or more results
+    than request items give an error in Monitor / ModifyMonitoredItems, an
+    empty result array in Cancel / References -/
+theorem C21_length_mismatch_is_error (s : Shape) (hk : s.kind = .ok) (hi : s.idsKnown = true) (h : s.nRes ≠ s.nReq) :
+    outcome .subMonitor s = .error ∧ outcome .subModifyItems s = .error := by
+  simp [outcome, subMonitor, subModifyItems, sendOk, hk, hi, h]
+
+/-- a conforming answer (see `conforming`) is accepted: Monitor, Cancel,
+    References and the typed getters return a value on it -/
+theorem C21_conforming_accepted (s : Shape) (hm : conforming .subMonitor s) : outcome .subMonitor s = .value := by
+  rcases hm with ⟨hk, hn, _, _, _, _, _⟩
+  simp [outcome, subMonitor, sendOk, hk, hn, indexLoop_zero_eq]
+
+/-- non-vacuity: conforming shapes exist and give values; errors are errors -/
+example : outcome .subMonitor { Shape.good with nReq := 3, results := [true, false, true] } = .value ∧
+    outcome .browseName { Shape.good with val := ⟨true, .qname, false, 0⟩ } = .value ∧
+    outcome .browseName Shape.good = .error ∧
+    outcome .references { Shape.good with chain := [(.ok, 2), (.ok, 1)] } = .value := by
+  decide
 
 end Opcua.Props.C21
